@@ -316,7 +316,9 @@ class Gen(object):
                 return Req('lint', (None, self.fn(), False), kind='source-none', failing=True)
             return Req(r.choice(['assist', 'location']), (None, (1, 0), self.fn()), kind='source-none', failing=True)
         if c < 58:
-            cfg = r.choice([{}, None, [], {'source': ['x']}, 'sources'])
+            # the last two: valid (other) roots, but the rest of the configuration makes Project() raise -- the session keeps its project
+            cfg = r.choice([{}, None, [], {'source': ['x']}, 'sources', {'sources': [self.dir_b], 'dyn_modules': 7},
+                            {'sources': [self.dir_b, self.dir_a], 'dyn_modules': 1.5}])
             return Req('configure', (cfg,), kind='configure-bad', failing=True)
         if c < 74:
             return Req('eval', (r.choice(EVAL_RAISES),), kind='eval-raises', failing=True)
@@ -727,6 +729,18 @@ def run(check):
         if len(reals) == len(first) and reals[7][0] == 'ret' and same(reals[7], reals[9]) and same(reals[9], reals[11]):
             check.fail('configure did not replace the project (same completions for two different source trees)',
                        replayable(root, first, True))
+
+        # 0c. a configure that fails AFTER its roots were read (valid other roots, dyn_modules not iterable) leaves the session as it was
+        # (found missing by seeded change C15-5: the project replaced before the failing part of configure)
+        half = [Req('configure', ({'sources': [gen.dir_a]},), kind='configure', neutral=False),
+                Req('assist', ASSIST_SOURCES[0] + (gen.fn(),), kind='assist'),
+                Req('configure', ({'sources': [gen.dir_b], 'dyn_modules': 7},), kind='configure-bad', failing=True),
+                Req('assist', ASSIST_SOURCES[0] + (gen.fn(),), kind='assist'),
+                Req('lint', (ASSIST_SOURCES[0][0], gen.fn(), False), kind='lint')]
+        reals = runner.run_seq(half, fresh=True, label=' (half-failed configure)')
+        if len(reals) == len(half) and reals[1][0] == 'ret' and reals[2][0] != 'ret' and not same(reals[1], reals[3]):
+            check.fail('a configure request that was answered with an error changed the answers of the session',
+                       replayable(root, half, True))
 
         # 0b. configure again with the same roots and other dyn_modules (and back): each configuration is a new project
         dyn = ASSIST_SOURCES[1] + (gen.fn(),)
